@@ -8,7 +8,7 @@ Nothing is ever committed to /repo; every patch is undone with `git checkout -- 
 import json, os, re, shutil, subprocess, sys, time
 
 REPO, VERIF = "/repo", "/verif"
-SCRATCH = "/tmp/seedchk"
+SCRATCH = "/tmp/seedchk"  # + "-<name>" per confirmation, so several can run side by side
 ENV = dict(os.environ, GOFLAGS="-mod=mod", GOPROXY="off", GOSUMDB="off", GOTOOLCHAIN="local")
 
 
@@ -42,6 +42,8 @@ def confirm(src):
     dest, cmd = parse_run(run_txt)
     demos = [f for f in os.listdir(os.path.join(src, "demo")) if f.endswith(".go")]
     log = {"name": name, "ran": []}
+    global SCRATCH
+    SCRATCH = "/tmp/seedchk-" + name
     if os.path.exists(SCRATCH):
         sh("git -C %s worktree remove --force %s" % (REPO, SCRATCH))
     rc, out = sh("git -C %s worktree add -q --detach %s HEAD" % (REPO, SCRATCH))
